@@ -112,13 +112,19 @@ CheckRedirect(line, ev, oi) ==
             THEN Mis(line, "C03.order", oi, <<v, v>>) ELSE TRUE
     ELSE TRUE
 
+\* a condition that panics for this request (user code failing during selection): it has not returned true, so a
+\* route that needs it must not run; what the request is answered otherwise (a recovered 500, another route) is
+\* not a routing matter - only route outcomes are judged
+CondPanics(ev) == "cpanic" \in DOMAIN ev.req /\ ev.req.cpanic # <<>>
 CheckReq(line, ev) ==
-  LET J == {i \in 1..Len(ev.outs) : Judged(ev.outs[i])} IN
+  LET cp == CondPanics(ev)
+      J == {i \in 1..Len(ev.outs) : Judged(ev.outs[i]) /\ (cp => ev.outs[i].k = "route")} IN
   /\ \A oi \in J : CheckOut(line, ev, oi)
-  /\ \A oi \in {i \in 1..Len(ev.outs) : ev.outs[i].k = "redirect"} : CheckRedirect(line, ev, oi)
-  /\ \A oi, oj \in J : (oi < oj /\ Outcome(ev.outs[oi]) # Outcome(ev.outs[oj]))
-                          => CheckPair(line, ev, oi, oj)
-  /\ CountRelational(ev)
+  /\ ~cp =>
+       /\ \A oi \in {i \in 1..Len(ev.outs) : ev.outs[i].k = "redirect"} : CheckRedirect(line, ev, oi)
+       /\ \A oi, oj \in J : (oi < oj /\ Outcome(ev.outs[oi]) # Outcome(ev.outs[oj]))
+                               => CheckPair(line, ev, oi, oj)
+       /\ CountRelational(ev)
 
 \* ---------- C17: Allow headers vs. what is routable ----------
 \* probes: <<method, status (200 = a route ran, -1 = panic), ran>> on a plain container;
